@@ -6,6 +6,7 @@ import (
 	"time"
 
 	"github.com/douban/gobeansdb/config"
+	"github.com/douban/gobeansdb/verifhook"
 )
 
 type GCMgr struct {
@@ -90,6 +91,7 @@ func (mgr *GCMgr) UpdateHtreePos(bkt *Bucket, ki *KeyInfo, oldPos, newPos Positi
 			bkt.ID, ki.StringKey, meta, oldPos)
 		return
 	}
+	verifhook.Point("gc.repoint.got", bkt.ID, ki.StringKey, oldPos, newPos)
 	bkt.htree.set(ki, meta, newPos)
 }
 
@@ -188,6 +190,8 @@ func (bkt *Bucket) gcCheckRange(startChunkID, endChunkID, noGCDays int) (start, 
 func (mgr *GCMgr) gc(bkt *Bucket, startChunkID, endChunkID int, merge bool) {
 
 	logger.Infof("begin GC bucket %d chunk [%d, %d]", bkt.ID, startChunkID, endChunkID)
+	verifhook.Point("gc.pass.enter", bkt.ID, startChunkID, endChunkID)
+	defer verifhook.Point("gc.pass.exit", bkt.ID, startChunkID, endChunkID)
 
 	bkt.GCHistory = append(bkt.GCHistory, GCState{})
 	gc := &bkt.GCHistory[len(bkt.GCHistory)-1]
@@ -258,6 +262,7 @@ func (mgr *GCMgr) gc(bkt *Bucket, startChunkID, endChunkID int, merge bool) {
 		var fileState GCFileState
 		// reader must have a larger buffer
 		logger.Infof("begin GC bucket %d, file %d -> %d", bkt.ID, gc.Src, gc.Dst)
+		verifhook.Point("gc.src.begin", bkt.ID, gc.Src, gc.Dst)
 		bkt.hints.ClearChunk(gc.Src)
 		if r, err = bkt.datas.GetStreamReader(gc.Src); err != nil {
 			gc.Err = err
@@ -311,6 +316,7 @@ func (mgr *GCMgr) gc(bkt *Bucket, startChunkID, endChunkID int, merge bool) {
 				}
 			}
 
+			verifhook.Point("gc.rec.checked", bkt.ID, ki.StringKey, oldPos, isNewest)
 			wrec := wrapRecord(rec)
 			recsize := wrec.rec.Payload.RecSize
 			fileState.addRecord(recsize, isNewest, isDeleted, sizeBroken)
@@ -320,6 +326,7 @@ func (mgr *GCMgr) gc(bkt *Bucket, startChunkID, endChunkID int, merge bool) {
 			}
 
 			if recsize+dstchunk.writingHead > uint32(Conf.DataFileMax) {
+				verifhook.Point("gc.dst.switch", bkt.ID, gc.Dst, gc.Dst+1)
 				dstchunk.endGCWriting()
 				bkt.hints.trydump(gc.Dst, true)
 
@@ -338,6 +345,7 @@ func (mgr *GCMgr) gc(bkt *Bucket, startChunkID, endChunkID int, merge bool) {
 				logger.Errorf("gc failed: %s", err.Error())
 				return
 			}
+			verifhook.Point("gc.rec.copied", bkt.ID, ki.StringKey, oldPos, newPos)
 			// logger.Infof("%s %v %v", ki.StringKey, newPos, meta)
 			if found {
 				if isCoverdByCollision {
@@ -346,7 +354,9 @@ func (mgr *GCMgr) gc(bkt *Bucket, startChunkID, endChunkID int, merge bool) {
 				mgr.UpdateHtreePos(bkt, ki, oldPos, newPos)
 			}
 
+			verifhook.Point("gc.rec.repointed", bkt.ID, ki.StringKey, oldPos, newPos)
 			rotated := bkt.hints.set(ki, &meta, newPos, recsize, "gc")
+			verifhook.Point("gc.rec.hinted", bkt.ID, ki.StringKey, oldPos, newPos)
 			if rotated {
 				bkt.hints.trydump(gc.Dst, false)
 			}
@@ -355,6 +365,7 @@ func (mgr *GCMgr) gc(bkt *Bucket, startChunkID, endChunkID int, merge bool) {
 		if gc.Src != gc.Dst {
 			bkt.datas.chunks[gc.Src].Clear()
 		}
+		verifhook.Point("gc.src.cleared", bkt.ID, gc.Src, gc.Dst)
 		if gc.Src+1 >= bkt.NextGCChunk {
 			bkt.NextGCChunk = gc.Src + 1
 			bkt.dumpGCHistroy()
